@@ -18,11 +18,31 @@
 #include <boost/core/exchange.hpp>
 
 #include <cstddef>
+#include <iterator>
 #include <memory>
 #include <utility>
 #include <type_traits>
 
 namespace boost { namespace gil {
+
+namespace detail {
+
+/// Channel references of bit-aligned pixels load and store a whole bit field at the byte holding the first
+/// bit of the channel: for the last pixels of an image that reaches up to sizeof(bit field) - 1 bytes past
+/// the pixel data, which the image therefore has to own.
+template <typename XIterator, int BitsPerByte = byte_to_memunit<XIterator>::value>
+struct access_slack_in_bytes : std::integral_constant<std::size_t, 0> {};
+
+template <typename XIterator>
+struct access_slack_in_bytes<XIterator, 8>
+    : std::integral_constant
+        <
+            std::size_t,
+            sizeof(typename std::iterator_traits<XIterator>::reference::bitfield_t) - 1
+        >
+{};
+
+} // namespace detail
 
 ////////////////////////////////////////////////////////////////////////////////////////
 /// \ingroup ImageModel PixelBasedModel
@@ -442,7 +462,8 @@ private:
         // return the size rounded up to the nearest byte
         return ( size_in_units + byte_to_memunit< x_iterator >::value - 1 )
             / byte_to_memunit<x_iterator>::value
-            + ( _align_in_bytes > 0 ? _align_in_bytes - 1 : 0 ); // add extra padding in case we need to align the first image pixel
+            + ( _align_in_bytes > 0 ? _align_in_bytes - 1 : 0 ) // add extra padding in case we need to align the first image pixel
+            + detail::access_slack_in_bytes<x_iterator>::value; // bit-aligned channel accessors reach past the last pixel
     }
 
     std::size_t get_row_size_in_memunits(x_coord_t width) const {   // number of units per row
